@@ -170,7 +170,7 @@ func (tr *Tracer) storeCell(st *state, addr, val *Sym) {
 		if addr.Kind == KFieldAddr && c.addr.Kind == KFieldAddr && sameField(addr.Field, c.addr.Field) && mayAlias(addr.Args[0], c.addr.Args[0]) {
 			st.store[ck] = &cell{addr: c.addr, val: st.later(c.addr, symValType(c.val))}
 		}
-		if addr.Kind == KIndexAddr && c.addr.Kind == KIndexAddr && mayAlias(addr.Args[0], c.addr.Args[0]) && !distinctConst(addr.Args[1], c.addr.Args[1]) {
+		if addr.Kind == KIndexAddr && c.addr.Kind == KIndexAddr && mayAlias(addr.Args[0], c.addr.Args[0]) && !distinctConst(addr.Args[1], c.addr.Args[1]) && sameElemType(addr, c.addr) {
 			st.store[ck] = &cell{addr: c.addr, val: st.later(c.addr, symValType(c.val))}
 		}
 		if (addr.Kind == KParam || addr.Kind == KInit || addr.Kind == KFresh) && (c.addr.Kind == KParam || c.addr.Kind == KInit || c.addr.Kind == KFresh) && types.Identical(typeOf(addr), typeOf(c.addr)) {
@@ -182,6 +182,14 @@ func (tr *Tracer) storeCell(st *state, addr, val *Sym) {
 	if addr.root().Kind != KAlloc || st.escaped[addr.root().ID] {
 		tr.escape(st, val)
 	}
+}
+
+// sameElemType: two element addresses can only alias when their element types agree
+func sameElemType(a, b *Sym) bool {
+	if a.Typ == nil || b.Typ == nil {
+		return true
+	}
+	return types.Identical(a.Typ, b.Typ)
 }
 
 func typeOf(s *Sym) types.Type {
@@ -262,6 +270,12 @@ func (tr *Tracer) keepOnHavoc(st *state, addr *Sym) bool {
 	r := addr.root()
 	if r.Kind == KAlloc && !st.escaped[r.ID] {
 		return true
+	}
+	// package-level tables written only during package initialisation
+	if r.Kind == KGlobal && addr.Kind != KGlobal {
+		if g, ok := r.Ref.(*ssa.Global); ok && tr.c.initOnlyGlobal(g) {
+			return true
+		}
 	}
 	// a cell of a field that is immutable after construction: its base is a fixed symbolic pointer, so
 	// whatever way that pointer was obtained the content cannot change (objects under construction are
